@@ -1,9 +1,11 @@
 import ZeepVerif.Driver.C06
 import ZeepVerif.Driver.Gen
+import ZeepVerif.Driver.HttpDrv
 
 def main (args : List String) : IO UInt32 := do
   match args with
   | ["c06"] => ZeepVerif.Driver.C06.main; return 0
   | ["model", dump, start, out] => ZeepVerif.Driver.Gen.main dump start out
   | ["modelbatch"] => ZeepVerif.Driver.Gen.batch
+  | ["http"] => ZeepVerif.Driver.HttpDrv.main; return 0
   | _ => IO.eprintln "usage: zvdrv c06 < lines"; return 2
